@@ -36,7 +36,8 @@ def make(shape: Dict[str, Any]) -> Any:
         t0 = ctx.int('t0', 2**43, 2**44)
         loop = env.begin(ctx, t0)
         env.use_token_packets(True)
-        zc = env.make_zc(loop, n_transports=n_tr)
+        families = shape.get('families')
+        zc = env.make_zc(loop, n_transports=n_tr, families=families)
         cat = {
             'S1': Svc('S1', T1, N1, 'alpha.local.', 80, [V4A], []),
             'S2': Svc('S2', T1, 'Beta._http._tcp.local.', 'beta.local.', 8080, [V4B], []),
@@ -60,8 +61,24 @@ def make(shape: Dict[str, Any]) -> Any:
         port = ctx.int('port', 0, 65535) if fixed_port is None else fixed_port
         qid = ctx.int('id', 0, 65535)
         qs = [Q(n, t, qu) for n, t, qu in questions]
-        msg = mk_query(t0, qs, [], ('10.0.0.9', port), id_=qid, probe_authorities=1 if probe else 0, data=b'q')
-        proto.handle_query_or_defer(msg, '10.0.0.9', port, proto.transport, ())
+        src = '10.0.0.9'
+        if families:
+            # dual-stack instance: the datagram goes through the real datagram_received (address unpacking, v6 flow / scope)
+            import zeroconf._listener as lst
+
+            recv_v6 = families[n_tr - 1] == 'v6'
+            src = 'fe80::9' if recv_v6 else '10.0.0.9'
+            addrs: Any = (src, port, ctx.int('flow', 0, 2**20 - 1), ctx.int('scope', 0, 2**32 - 1)) if recv_v6 else (src, port)
+            msg = mk_query(t0, qs, [], (src, port), id_=qid, probe_authorities=1 if probe else 0, data=b'q')
+            saved_inc = lst.DNSIncoming
+            lst.DNSIncoming = lambda data, source=None, scope_id=None, now=None: msg  # type: ignore[misc,assignment]
+            try:
+                proto.datagram_received(b'q', addrs)
+            finally:
+                lst.DNSIncoming = saved_inc  # type: ignore[misc]
+        else:
+            msg = mk_query(t0, qs, [], ('10.0.0.9', port), id_=qid, probe_authorities=1 if probe else 0, data=b'q')
+            proto.handle_query_or_defer(msg, '10.0.0.9', port, proto.transport, ())
         immediate = list(env.sent_log(zc))
         loop.advance_by(3000)
         if ctx.twin:
@@ -120,7 +137,11 @@ def make(shape: Dict[str, Any]) -> Any:
         if exp_ucast:
             if ctx.check(len(uni) == 1, f'{len(uni)} unicast transmissions for one query (expected one, on the receiving socket only)'):
                 u = uni[0]
-                ctx.check(u.addr == '10.0.0.9' and u.port == (port if port != 0 else 5353), f'unicast reply sent to {u.addr}:{u.port}, not to the source')
+                ctx.check(u.addr == src and u.port == (port if port != 0 else 5353), f'unicast reply sent to {u.addr}:{u.port}, not to the source')
+                if families and families[n_tr - 1] == 'v6':
+                    ctx.check(len(u.dest) == 4 and u.dest[2] == addrs[2] and u.dest[3] == addrs[3], 'unicast reply to an IPv6 source does not carry its flow / scope')
+                elif families:
+                    ctx.check(len(u.dest) == 2, 'unicast reply to an IPv4 source carries flow / scope fields')
                 ctx.check(u.transport == proto.transport.transport.name, 'unicast reply left through another socket than the one the query arrived on')
                 ctx.check(u.out.id == qid, 'unicast reply does not echo the query id')
                 if ucast_source:
@@ -134,6 +155,9 @@ def make(shape: Dict[str, Any]) -> Any:
         # ---- multicast replies
         for s in multi_now + later:
             ctx.check(s.multicast, 'a reply built for multicast was sent to a unicast destination')
+            if families:
+                fam = families[[w.transport.name for w in zc.engine.senders].index(s.transport)]
+                ctx.check(s.addr == ('ff02::fb' if fam == 'v6' else '224.0.0.251'), 'multicast group does not match the address family of the socket')
             ctx.check(s.out.id == 0 and s.out.flags == QR_AA and not s.out.questions, 'multicast reply: id / flags / question section wrong')
             for r in s.records():
                 ctx.check(r.unique == (r.type != PTR), f'multicast reply: cache-flush marking wrong on {r.name}/{r.type}')
@@ -226,6 +250,9 @@ QUICK = {
     'unregistered': q(('Nobody._http._tcp.local.', SRV, True)),
     'two-ptrs-qu': q((T1, PTR, True), services=['S1', 'S2'], sighted=['S1.PTR', 'S2.PTR']),
     'two-addresses-qu': q(('alpha.local.', A, True), services=['S1', 'S3'], sighted=['S1.A', 'S3.A']),
+    'dual-stack-v6-legacy': q((T1, PTR, False), transports=2, families=['v4', 'v6']),
+    'dual-stack-v6-qu': q((N1, SRV, True), sighted=['SRV'], transports=2, families=['v4', 'v6']),
+    'dual-stack-v4-qu': q((N1, SRV, True), sighted=['SRV'], transports=2, families=['v6', 'v4']),
 }
 THOROUGH = {
     'mixed-qm-qu': q((T1, PTR, False), (N1, SRV, True), sighted=['PTR', 'SRV']),
@@ -236,6 +263,9 @@ THOROUGH = {
     'two-sockets-probe': q((T1, PTR, True), probe=True, transports=2, sighted=['PTR']),
     'any-qu': q((N1, const._TYPE_ANY, True), sighted=['SRV', 'TXT']),
     'nsec-qu-sighted': q(('alpha.local.', AAAA, True), sighted=['NSEC']),
+    'dual-stack-v6-probe': q((T1, PTR, True), probe=True, sighted=['PTR'], transports=2, families=['v4', 'v6']),
+    'dual-stack-v4-legacy': q((T1, PTR, False), transports=2, families=['v6', 'v4']),
+    'v6-only-qm': q((T1, PTR, False), transports=1, families=['v6']),
 }
 
 
@@ -257,14 +287,14 @@ META = {
     'multicast transmissions are compared with the statement. wire[*] obligations run the real packets() with value-carrying packer '
     'stand-ins and read back header id, flags, counts and every class word for symbolic id / class / flush bit.',
     'functions': [
-        'zeroconf._listener.AsyncListener.handle_query_or_defer/_respond_query', 'QueryHandler.handle_assembled_query/async_response',
+        'zeroconf._listener.AsyncListener.datagram_received (dual-stack shapes)/handle_query_or_defer/_respond_query', 'QueryHandler.handle_assembled_query/async_response',
         '_QueryResponse.add_qu_question_response/add_ucast_question_response/add_mcast_question_response/_has_mcast_within_one_quarter_ttl/'
         '_has_mcast_record_in_last_second', 'answers.construct_outgoing_unicast_answers/construct_outgoing_multicast_answers',
         'Zeroconf.async_send', '_core.async_send_with_transport', '_utils.net.can_send_to', 'DNSRecord.is_recent',
         'DNSOutgoing.packets/_write_record/_write_question/_write_record_class/_insert_short_at_start (wire obligations)',
     ],
-    'bounds': {'port': [0, 65535], 'id': [0, 65535], 'age_ms': [0, 2**42], 'cached ttl': [1, 2**31 - 1], 'class (wire)': [0, 32767], 'questions': '<= 2', 'sockets': '1..2 (IPv4)'},
-    'outside': ['IPv6 sockets / v6 flow scope', 'more than two questions, several services', 'byte-level layout beyond id, flags, counts and class words (C01/C14)'],
+    'bounds': {'port': [0, 65535], 'id': [0, 65535], 'age_ms': [0, 2**42], 'cached ttl': [1, 2**31 - 1], 'class (wire)': [0, 32767], 'questions': '<= 2', 'sockets': '1..2 (IPv4; dual-stack shapes: one IPv4 + one IPv6 socket, flow 0..2^20-1 and scope 0..2^32-1 symbolic)'},
+    'outside': ['more than two questions, several services', 'byte-level layout beyond id, flags, counts and class words (C01/C14)'],
     'stubs': env.STUBS + ['wire obligations: DNSOutgoing._get_short/_write_int/_write_byte replaced by width-preserving value tokens (vkit.wire)'],
     'float_sites': [],
     'assumptions': ['CrossHair 0.0.110 / z3 5.1.0'],
